@@ -444,13 +444,13 @@ def r8_single_body(report, repo):
 
 def run(report, repo):
   from sa.rules import c01, c02, c03  # pylint: disable=g-import-not-at-top
-  c02.r3_sequences(report, repo, rule='C04-R1')
-  r2_thread_publication(report, repo)
-  r3_abort_ladder(report, repo)
-  c01.r4_teardown_ladder(report, repo, rule='C04-R4')
-  r5_durable_indication(report, repo)
-  r6_sigint_lock(report, repo)
-  r7_lock_order(report, repo)
-  r8_single_body(report, repo)
+  report.guard(c02.r3_sequences, report, repo, rule='C04-R1')
+  report.guard(r2_thread_publication, report, repo)
+  report.guard(r3_abort_ladder, report, repo)
+  report.guard(c01.r4_teardown_ladder, report, repo, rule='C04-R4')
+  report.guard(r5_durable_indication, report, repo)
+  report.guard(r6_sigint_lock, report, repo)
+  report.guard(r7_lock_order, report, repo)
+  report.guard(r8_single_body, report, repo)
   # teardown still runs after a single abort: stop/reset/release hand-shake
-  c03.r4_stop_phase_executor(report, repo, rule='C04-R9')
+  report.guard(c03.r4_stop_phase_executor, report, repo, rule='C04-R9')
